@@ -228,19 +228,43 @@ func genGeom(r *simrt.RNG, typ string, allowEmpty bool, base float64) *gpkgh.G {
 }
 
 // genExtraTable: a second table with its own schema and geometry type.
-func genExtraTable(r *simrt.RNG, used map[string]bool, srs gpkgh.SRS, p int, k int) gpkgh.Table {
+// With like != nil it is sometimes a twin of that table: same column names and types, same
+// geometry column and type, another name and other rows (primary keys disjoint or not).
+func genExtraTable(r *simrt.RNG, used map[string]bool, srs gpkgh.SRS, p int, k int, like *gpkgh.Table) gpkgh.Table {
 	t := gpkgh.Table{Name: ident(r, used), Spatial: true, SRSID: srs.ID}
-	t.GeomType = geomTypes[r.Intn(len(geomTypes))]
-	t.GeomCol = ident(r, used)
-	t.Columns = []gpkgh.Column{{Name: ident(r, used), Type: "INTEGER", PK: true}}
-	for i, n := 0, r.Intn(3); i < n; i++ {
-		t.Columns = append(t.Columns, gpkgh.Column{Name: ident(r, used), Type: []string{"INTEGER", "REAL", "TEXT"}[r.Intn(3)]})
+	fid := int64(0)
+	if like != nil && r.Chance(0.35) {
+		t.GeomType, t.GeomCol = like.GeomType, like.GeomCol
+		t.Columns = append([]gpkgh.Column(nil), like.Columns...)
+		if r.Chance(0.6) {
+			pk := 0
+			for _, col := range like.Columns {
+				if col.Name == like.GeomCol {
+					continue
+				}
+				if col.PK {
+					for _, row := range like.Rows {
+						if v := row.Vals[pk].I; v != nil && *v >= fid {
+							fid = *v + 1
+						}
+					}
+				}
+				pk++
+			}
+		}
+	} else {
+		t.GeomType = geomTypes[r.Intn(len(geomTypes))]
+		t.GeomCol = ident(r, used)
+		t.Columns = []gpkgh.Column{{Name: ident(r, used), Type: "INTEGER", PK: true}}
+		for i, n := 0, r.Intn(3); i < n; i++ {
+			t.Columns = append(t.Columns, gpkgh.Column{Name: ident(r, used), Type: []string{"INTEGER", "REAL", "TEXT"}[r.Intn(3)]})
+		}
+		pos := 1 + r.Intn(len(t.Columns))
+		t.Columns = append(t.Columns[:pos], append([]gpkgh.Column{{Name: t.GeomCol, Type: t.GeomType}}, t.Columns[pos:]...)...)
 	}
-	pos := 1 + r.Intn(len(t.Columns))
-	t.Columns = append(t.Columns[:pos], append([]gpkgh.Column{{Name: t.GeomCol, Type: t.GeomType}}, t.Columns[pos:]...)...)
 	c := r.Intn(2*p + 2)
 	base := float64(1000000*k + r.Intn(500000))
-	fid := int64(1 + r.Intn(50))
+	fid += int64(1 + r.Intn(50))
 	for i := 0; i < c; i++ {
 		var row gpkgh.Row
 		for _, col := range t.Columns {
@@ -252,7 +276,7 @@ func genExtraTable(r *simrt.RNG, used map[string]bool, srs gpkgh.SRS, p int, k i
 				fid += int64(1 + r.Intn(3))
 				continue
 			}
-			row.Vals = append(row.Vals, genVal(r, col.Type, false, i))
+			row.Vals = append(row.Vals, genVal(r, strings.ToUpper(strings.Split(col.Type, "(")[0]), col.NotNull, i))
 		}
 		row.Geom = genGeom(r, t.GeomType, true, base)
 		switch row.Geom.T {
@@ -403,7 +427,7 @@ func genWork(seed uint64) (gwork, simrt.FaultPlan, simrt.MapPolicy, uint64) {
 	}
 	w.Table = t
 	if r.Chance(0.3) {
-		w.More = append(w.More, genExtraTable(r, used, w.SRS, p, 1))
+		w.More = append(w.More, genExtraTable(r, used, w.SRS, p, 1, &w.Table))
 	}
 	w.SpareCap = r.Chance(0.5)
 
